@@ -86,11 +86,22 @@ def run_case(case, ctx):
             x64 = x.astype(np.float64)
             norm = float(np.linalg.norm(x64)) or 1.0
             one = {"ns": [n], "seed": case["seed"], "cls": cls}
-            ts = TimeSeries(x, _hdr(n))
+            variant = int(rng.integers(0, 4))
+            if variant == 1:   # the same values held in a strided (non-contiguous) array
+                big = np.zeros(2 * n, dtype=np.float32)
+                big[::2] = x
+                ts = TimeSeries(big[::2], _hdr(n))
+                ctx.count("variant:strided_input")
+            else:
+                ts = TimeSeries(x, _hdr(n))
             # ---------------- rfft
             ctx.evaluated(); ctx.count("op:rfft")
             try:
-                fs = ts.rfft()
+                if variant == 2:   # user-supplied transform (documented option)
+                    fs = ts.rfft(fftn=lambda a, m: np.fft.rfft(a, m))
+                    ctx.count("variant:custom_fftn")
+                else:
+                    fs = ts.rfft()
             except Exception as exc:  # noqa: BLE001
                 ctx.violation(f"rfft-raised:{type(exc).__name__}@{exc_site(exc)}", f"n={n}: {fmt_exc(exc)}", one)
                 continue
@@ -133,7 +144,7 @@ def run_case(case, ctx):
             ctx.evaluated(); ctx.count("op:ifft")
             lab = f"L-{'odd' if L % 2 else 'even'}{'' if L > 1 else '=1'}"
             try:
-                back = fs.ifft()
+                back = fs.ifft(ifftn=lambda a, m=None: np.fft.irfft(a, m)) if variant == 3 else fs.ifft()
                 b = np.asarray(back.data, dtype=np.float64)
                 wantb = np.zeros(L)
                 wantb[:n] = x64
